@@ -69,6 +69,15 @@ def register(reg, ctx):
     setter_contracts(reg, PROP, tree, BN, 'Beam', None, label='notify', recv="self.notifier",
                      extra_depends={'_energy', '_power', '_temperature', '_element', '_divergence_x', '_divergence_y', '_tanxdiv', '_tanydiv',
                                     '_length', '_sigma', '_attenuator'}, externals=bm, sorts={})
+    # the callback the Beam registers on its attenuator's notifier must rebuild the geometry (clamp radius) and notify the models
+    reg.contract(BN, "Beam._attenuator_changed", PROP, externals=bm,
+        ensures=[("rebuilds_geometry", rebuilt_after_writes('_configure_geometry', [], recv="self", name='coherence._attenuator_changed._configure_geometry')),
+                 ("notifies_models", rebuilt_after_writes('notify', [], recv="self.notifier", name='coherence._attenuator_changed.notify'))])
+    reg.contract(BN, "Beam.attenuator.setter", PROP, name='registration', sorts={"value": "ref:BeamAttenuator!"}, externals=bm,
+        raises_any=["ValueError"],
+        ensures=[("registers_geometry_callback", lambda P: [("registers_geometry_callback", z3.BoolVal(bool(
+            P.calls('notifier.add') and isinstance(P.calls('notifier.add')[-1].args[0], BoundMethod)
+            and P.calls('notifier.add')[-1].args[0].name == '_attenuator_changed')))])])
     # ------------------------------------------------------------------ attenuator
     at = dict(ext, **{'SingleRayAttenuator._change': logged_self('_change')})
     setter_contracts(reg, PROP, tree, SR, 'SingleRayAttenuator', None, label='notify', recv="self.notifier",
@@ -152,14 +161,18 @@ def _visibility(ctx, eng):
             if not isinstance(c, ast.ClassDef):
                 continue
             tree.prefer_stem = tree.abspath(file).rsplit('.', 1)[0]
-            for n in ast.walk(c):
+            seen = {}
+            calls = sorted([n for n in ast.walk(c) if isinstance(n, ast.Call)], key=lambda n: (n.lineno, n.col_offset))
+            for n in calls:
                 if isinstance(n, ast.Call) and isinstance(n.func, ast.Attribute) and n.func.attr in ('add', 'remove') \
                         and 'notifier' in ast.unparse(n.func.value) and n.args and isinstance(n.args[0], ast.Attribute) \
                         and isinstance(n.args[0].value, ast.Name) and n.args[0].value.id == 'self':
                     name = n.args[0].attr
                     ci2, m = tree.lookup_method(c.name, name)
                     kind = getattr(m, 'kind', None) if m is not None else None
-                    out.append(structural('visibility/%s.callback.%s.bound-python-method#%d' % (c.name, name, n.lineno), PROP, kind in ('def', 'cpdef'),
+                    k = seen.get(name, 0)
+                    seen[name] = k + 1
+                    out.append(structural('visibility/%s.callback.%s.bound-python-method#%d' % (c.name, name, k), PROP, kind in ('def', 'cpdef'),
                                           '%s passed to %s is declared %s' % (ast.unparse(n.args[0]), ast.unparse(n.func), kind)))
     return out
 
